@@ -23,6 +23,23 @@ fn main() {
         // hidden: supervised worker of C14's nesting families
         "__c14-worker" => c14::worker(rest),
         "__c14-bytes-worker" => c14_bytes::worker(rest),
+        // hidden: the real lexer's and the reference tokenizer's reading of one text (diagnosis aid)
+        "__lex" => {
+            for text in rest {
+                println!("text {text:?}");
+                for (t, o, l) in real::lex(text) {
+                    println!("  real      {o:3}+{l:<2} {:?} {t:?}", text.get(o..o + l).unwrap_or("<bad span>"));
+                }
+                let mut toks = Vec::new();
+                let (u, e) = reference::tokenize_partial(text, &mut toks);
+                for t in &toks {
+                    println!("  reference {:3}+{:<2} {:?} {:?}", t.start, t.end - t.start, &text[t.start..t.end], t.kind);
+                }
+                println!("  reference unspecified {u:?} error {:?}", e.map(|e| (e.what, e.offset)));
+                println!("  parser accepts: {}", wac_parser::Document::parse(text).is_ok());
+            }
+            std::process::exit(0)
+        }
         _ => mc_core::machinery_error(&format!("mc-lang does not serve {prop}")),
     }
 }
